@@ -276,7 +276,7 @@ func c14(c *Ctx) {
 			dst := cp.(*ssa.Call).Call.Args[0]
 			okDst := false
 			for _, a := range origins(dst) {
-				if cl, ok := a.V.(*ssa.Call); ok && strings.HasSuffix(calleeName(cl.Common()), "RawAccess") && cl.Call.Args[0] == ssa.Value(w.Params[0]) {
+				if cl, ok := a.V.(*ssa.Call); ok && isRawAccessFn(staticCallee(cl.Common())) && cl.Call.Args[0] == ssa.Value(w.Params[0]) {
 					if lc, ok := cl.Call.Args[1].(*ssa.Call); ok && isLenCall(lc) && lc.Call.Args[0] == ssa.Value(w.Params[1]) {
 						okDst = true
 					}
@@ -318,7 +318,7 @@ func c14(c *Ctx) {
 			// address of the protection change must be a loop variable p: phi[PageStart(addr), p+pagesize], cond p < addr+len
 			var ph *ssa.Phi
 			for _, a := range origins(pc.Addr) {
-				if cl, ok := a.V.(*ssa.Call); ok && strings.HasSuffix(calleeName(cl.Common()), "RawAccess") {
+				if cl, ok := a.V.(*ssa.Call); ok && isRawAccessFn(staticCallee(cl.Common())) {
 					ph, _ = cl.Call.Args[0].(*ssa.Phi)
 				}
 			}
@@ -331,12 +331,12 @@ func c14(c *Ctx) {
 				startOK := false
 				for _, a := range origins(pc.Addr) {
 					if cl, ok := a.V.(*ssa.Call); ok {
-						if strings.HasSuffix(strings.ToLower(calleeName(cl.Common())), "pagestart") && resolveLocal(cl.Call.Args[0]) == ssa.Value(f.Params[0]) {
+						if isPageStartFn(staticCallee(cl.Common())) && resolveLocal(cl.Call.Args[0]) == ssa.Value(f.Params[0]) {
 							startOK = true
 						}
-						if strings.HasSuffix(calleeName(cl.Common()), "RawAccess") {
+						if isRawAccessFn(staticCallee(cl.Common())) {
 							for _, a2 := range origins(cl.Call.Args[0]) {
-								if c2, ok := a2.V.(*ssa.Call); ok && strings.HasSuffix(strings.ToLower(calleeName(c2.Common())), "pagestart") && resolveLocal(c2.Call.Args[0]) == ssa.Value(f.Params[0]) {
+								if c2, ok := a2.V.(*ssa.Call); ok && isPageStartFn(staticCallee(c2.Common())) && resolveLocal(c2.Call.Args[0]) == ssa.Value(f.Params[0]) {
 									startOK = true
 								}
 							}
@@ -355,7 +355,7 @@ func c14(c *Ctx) {
 			}
 			okStart, okStep, okCond := false, false, false
 			for _, e := range ph.Edges {
-				if cl, ok := e.(*ssa.Call); ok && strings.HasSuffix(strings.ToLower(calleeName(cl.Common())), "pagestart") && cl.Call.Args[0] == ssa.Value(f.Params[0]) {
+				if cl, ok := e.(*ssa.Call); ok && isPageStartFn(staticCallee(cl.Common())) && cl.Call.Args[0] == ssa.Value(f.Params[0]) {
 					okStart = true
 				}
 				if bo, ok := e.(*ssa.BinOp); ok && bo.Op == token.ADD && bo.X == ssa.Value(ph) {
@@ -432,7 +432,7 @@ func c14(c *Ctx) {
 			continue
 		}
 		// RawAccess itself is the raw view (documented non thread safe, used by writers); exported readers must copy
-		if f.Name() == "RawAccess" {
+		if isRawAccessFn(f) {
 			// who may call the raw view: only package memory
 			for _, cs := range p.callersOf(f) {
 				r.Check(relPkg(cs.Caller) == memPkg, "C14.W6", "raw view used in "+shortName(cs.Caller), p.Pos(posOf(cs.Instr)), "raw text view confined to package memory", "the raw (aliasing) view of text is used outside package memory: callers can modify or observe text without the lock")
@@ -555,3 +555,46 @@ func isFieldAtom(a Atom, fv *types.Var) bool {
 	_, got, ok := fieldRef(a.V)
 	return ok && got == fv
 }
+
+// isPageStartFn: a module function uintptr→uintptr whose every return is its parameter masked (&^ or &) — the page-start
+// rounding, whatever it is called.
+func isPageStartFn(f *ssa.Function) bool {
+	if f == nil || f.Blocks == nil || !strings.HasPrefix(pkgPathOf(f), Mod) || len(f.Params) != 1 || f.Signature.Results().Len() != 1 {
+		return false
+	}
+	if !isUintptr(f.Params[0].Type()) || !isUintptr(f.Signature.Results().At(0).Type()) {
+		return false
+	}
+	rets := returnsOf(f)
+	if len(rets) == 0 {
+		return false
+	}
+	for _, ret := range rets {
+		bo, ok := retResult(ret, 0).(*ssa.BinOp)
+		if !ok || (bo.Op != token.AND && bo.Op != token.AND_NOT) || resolveLocal(bo.X) != ssa.Value(f.Params[0]) {
+			return false
+		}
+	}
+	return true
+}
+
+// isRawAccessFn: a module function (uintptr, int) → []byte that fabricates the slice from the address (unsafe view of memory).
+func isRawAccessFn(f *ssa.Function) bool {
+	if f == nil || f.Blocks == nil || !strings.HasPrefix(pkgPathOf(f), Mod) || len(f.Params) != 2 || f.Signature.Results().Len() != 1 {
+		return false
+	}
+	sl, ok := f.Signature.Results().At(0).Type().Underlying().(*types.Slice)
+	if !ok || !isByte(sl.Elem()) || !isUintptr(f.Params[0].Type()) || !isIntegerType(f.Params[1].Type()) {
+		return false
+	}
+	usesUnsafe := false
+	eachInstr(f, func(i ssa.Instruction) {
+		if cv, ok := i.(*ssa.Convert); ok {
+			if b, ok := cv.Type().Underlying().(*types.Basic); ok && b.Kind() == types.UnsafePointer {
+				usesUnsafe = true
+			}
+		}
+	})
+	return usesUnsafe
+}
+
